@@ -21,9 +21,29 @@ import (
 	"github.com/Comcast/sheens/interpreters"
 	"github.com/Comcast/sheens/match"
 
+	"github.com/Comcast/sheens/sio"
+
 	"verif/fw"
 	"verif/siox"
 )
+
+// lockedOut collects what a Stdio coupling prints.
+type lockedOut struct {
+	mu sync.Mutex
+	b  strings.Builder
+}
+
+func (l *lockedOut) Write(p []byte) (int, error) {
+	l.mu.Lock()
+	defer l.mu.Unlock()
+	return l.b.Write(p)
+}
+
+func (l *lockedOut) String() string {
+	l.mu.Lock()
+	defer l.mu.Unlock()
+	return l.b.String()
+}
 
 const deepLevels = 1000000
 
@@ -83,6 +103,15 @@ func init() {
 		deepCase{"map-that-contains-itself-returned", "action", "ecmascript", `var m = new Map(); m.set("a", m); return {m: m};`},
 		deepCase{"set-that-contains-itself-returned", "action", "ecmascript", `var s = new Set(); s.add(s); return {s: s};`},
 		deepCase{"map-that-contains-itself-emitted", "action", "ecmascript", `var m = new Map(); m.set("a", m); _.out({m: m}); return _.bindings;`})
+}
+
+// the Stdio coupling with a state file rewritten after every message (siostd -state-out F
+// -write-state-msg): a machine that leaves something in its bindings that cannot be
+// written (NaN) must not take the host down
+func init() {
+	deepCases = append(deepCases,
+		deepCase{"stdio-state-that-cannot-be-written", "stdio", "ecmascript", `return {x: 0/0};`},
+		deepCase{"stdio-state-with-infinity", "stdio", "ecmascript", `var bs = _.bindings; bs.big = 1/0; return bs;`})
 }
 
 // boundary cases: nesting around the depth a JSON decoder accepts (10000).  Whatever is
@@ -205,6 +234,54 @@ func DeepCase(name string) int {
 				}
 			}
 		}
+	case "stdio":
+		dir, err := os.MkdirTemp("", "verif-c07-stdio")
+		if err != nil {
+			fmt.Println("tempdir:", err)
+			return 3
+		}
+		defer os.RemoveAll(dir)
+		doc := map[string]interface{}{"nodes": map[string]interface{}{
+			"start": map[string]interface{}{"branching": map[string]interface{}{"type": "message", "branches": []interface{}{
+				map[string]interface{}{"pattern": map[string]interface{}{"go": "?g"}, "target": "do"},
+				map[string]interface{}{"pattern": map[string]interface{}{"ping": "?p"}, "target": "pong"}}}},
+			"do":   map[string]interface{}{"action": map[string]interface{}{"interpreter": "ecmascript", "source": dc.Body}, "branching": map[string]interface{}{"branches": []interface{}{map[string]interface{}{"target": "start"}}}},
+			"pong": map[string]interface{}{"action": map[string]interface{}{"interpreter": "ecmascript", "source": `_.out({pong: _.bindings["?p"]}); return {};`}, "branching": map[string]interface{}{"branches": []interface{}{map[string]interface{}{"target": "start"}}}},
+		}}
+		line := func(x interface{}) string { b, _ := json.Marshal(x); return string(b) + "\n" }
+		// (the machine that holds the value may well be unable to go on; another one answers)
+		input := line(map[string]interface{}{"to": "captain", "update": map[string]interface{}{"m": map[string]interface{}{"spec": map[string]interface{}{"inline": doc}}, "other": map[string]interface{}{"spec": map[string]interface{}{"inline": doc}}}}) +
+			line(map[string]interface{}{"to": "m", "go": 1}) + line(map[string]interface{}{"to": "other", "ping": "p1"}) + "quit\n"
+		sio2 := sio.NewStdio(false)
+		sio2.In = strings.NewReader(input)
+		var buf lockedOut
+		sio2.Out = &buf
+		sio2.StateOutputFilename = dir + "/state.json"
+		sio2.WriteStatePerMsg = true
+		cctx, ccancel := context.WithCancel(ctx)
+		defer ccancel()
+		c, err := sio.NewCrew(cctx, &sio.CrewConf{Ctl: core.DefaultControl}, sio2)
+		if err != nil {
+			fmt.Println("crew:", err)
+			return 3
+		}
+		go func() {
+			<-sio2.InputEOF
+			// the crew works the lines off before it stops
+			for i := 0; i < 600 && !strings.Contains(buf.String(), `"pong":"p1"`); i++ {
+				time.Sleep(10 * time.Millisecond)
+			}
+			time.Sleep(100 * time.Millisecond)
+			ccancel()
+		}()
+		lerr := c.Loop(cctx)
+		out.Returned = true
+		if lerr != nil && cctx.Err() == nil {
+			out.Err = short(lerr.Error())
+		}
+		sio2.Stop(context.Background()) // (reports the same serialisation problem as an error; fine)
+		out.Node = "survived"
+		out.Alive = strings.Contains(buf.String(), `"pong":"p1"`)
 	case "crew":
 		c, _, err := siox.NewCrew(ctx, 50, 8, 8)
 		if err != nil {
@@ -301,7 +378,7 @@ func deepPart(cfg fw.Config, rec *fw.Rec) {
 						first += l + "; "
 					}
 				}
-				rec.Violation("C07:deep:process-died:"+dc.Name, fmt.Sprintf("the process running a script that handles a value nested %d levels deep died (%v): %s", deepLevels, err, first), replay)
+				rec.Violation("C07:deep:process-died:"+dc.Name, fmt.Sprintf("the process running the case %s died (%v): %s", dc.Name, err, first), replay)
 				return
 			}
 			var o deepOutcome
@@ -326,6 +403,12 @@ func deepPart(cfg fw.Config, rec *fw.Rec) {
 				} else {
 					rec.Violation("C07:deep:not-surfaced:"+dc.Name, fmt.Sprintf("node %q, error text %q, err %q", o.Node, o.ErrText, o.Err), replay)
 				}
+			case dc.Position == "stdio":
+				if !o.Alive {
+					rec.Violation("C07:deep:crew-dead:"+dc.Name, "after the action left a value in its bindings that cannot be written to the state file, the Stdio-coupled crew no longer answers", replay)
+					return
+				}
+				rec.Bucket("stdio_crew_survives_a_state_that_cannot_be_written")
 			case dc.Name == "string-of-deep-array":
 				// completes or fails; surviving is what matters
 			case o.Err == "" && (o.Node != "error" || o.ErrText == ""):
